@@ -20,6 +20,7 @@ import JubakoModel.Lemmas.FuncsContent
 import JubakoModel.Lemmas.FuncsCheck
 import JubakoModel.Lemmas.FuncsDir
 import JubakoModel.Lemmas.FuncsParse
+import JubakoModel.Lemmas.FuncsOpen
 
 namespace Jubako
 
@@ -361,5 +362,12 @@ theorem c14_index_header_parser_follows_source (bs : Bytes) :
     (Generated.indexHeaderParse bs).map' (fun r => (⟨r.1.1, r.1.2.1, r.1.2.2.1, r.1.2.2.2.1, r.1.2.2.2.2.1, r.1.2.2.2.2.2⟩ : IndexInfo)) =
       IndexInfo.decode bs :=
   gen_indexHeaderParse bs
+
+/-- **The reader's decoding of the pack header follows the source** (and with it the rule that makes old files keep
+    reading or be refused cleanly): `PackHeader::parse` translated on every run is `PackHeader.decode` on every
+    60-byte block, the version gate included and in the source's order. -/
+theorem c14_pack_header_parser_follows_source (bs : Bytes) (h60 : bs.length = 60) :
+    (Generated.packHeaderParse bs).map' (fun r => tupleToHeader r.1) = PackHeader.decode bs :=
+  gen_packHeaderParse bs h60
 
 end Jubako
